@@ -589,3 +589,65 @@ def rule_renameuses(ctx, prop: str) -> RuleResult:
         raise AnalysisError("RENAMEUSES: no lone-declaration Alpha_Rename found (anchor: DoSinkAlloc)")
     res.floor = 1
     return res
+
+
+def rule_strideknown(ctx, prop: str) -> RuleResult:
+    """`AWinAlloc` tells the effect analysis which strides of a dense buffer are compile-time
+    constants: walking from the innermost dimension outwards, stride(i) is the product of
+    the extents of all dimensions > i, so it is known only while every extent met so far
+    is a literal.  The accumulation loop must stop (break / return) at the first
+    non-literal extent; continuing would multiply only the literal extents and assert a
+    false stride for the outer dimensions (`stride(x, 0) == 4` for `x: R[2, 4, n]`)."""
+    ix = ctx.ix
+    res = RuleResult("STRIDEKNOWN")
+    f = ix.func(NE, "AWinAlloc")
+    res.analysed.append(f"{NE}:AWinAlloc")
+    loops = [n for n in f.body_nodes() if isinstance(n, ast.For) and "reversed" in ast.unparse(n.iter)]
+    if not loops:
+        raise AnalysisError("anchor vanished: the inside-out stride loop of AWinAlloc")
+    for lp in loops:
+        res.instances += 1
+        res.nontrivial += 1
+        ok = False
+        for k in lp.body:
+            for n in ast.walk(k):
+                if isinstance(n, ast.If) and "LoopIR.Const" in ast.unparse(n.test):
+                    t = ast.unparse(n.test)
+                    neg = t.startswith("not ")
+                    stop_branch = n.body if neg else n.orelse
+                    if any(isinstance(x, (ast.Break, ast.Return)) for s_ in stop_branch for x in ast.walk(s_)):
+                        ok = True
+        res.ob(ok)
+        res.sample(f"AWinAlloc: the stride accumulation stops at the first non-literal extent: {ok}")
+        if not ok:
+            res.add(
+                Finding("STRIDEKNOWN", NE, lp.lineno, "AWinAlloc", "no-stop",
+                        "the constant-stride loop of AWinAlloc does not stop at a non-literal extent: for `x: R[2, 4, n]` the analysis believes stride(x, 0) == 4 (it is 4*n), and every "
+                        "SMT-backed check that reads a stride (eliminate_dead_code on `if stride(x,0) == 4`, config writes of strides, call_eqv) can accept a wrong rewrite")
+            )
+    # a tensor passed to a call BY NAME may itself be a window (argument) of the caller: only a dense
+    # buffer has the strides AWinAlloc fills in, so the binding of the formal must know whether
+    # the actual is a window
+    cb = ix.func(NE, "call_bindings")
+    res.analysed.append(f"{NE}:call_bindings")
+    for k in cb.body_nodes():
+        if isinstance(k, ast.Call) and last_name(k) == "AWinAlloc":
+            res.instances += 1
+            res.nontrivial += 1
+            dv = next((kw.value for kw in k.keywords if kw.arg == "dense"), None)
+            srcs = []
+            if dv is not None:
+                srcs = [ast.unparse(dv)]
+                if isinstance(dv, ast.Name):
+                    srcs += [ast.unparse(a.value) for a in cb.body_nodes() if isinstance(a, ast.Assign) and len(a.targets) == 1 and dotted(a.targets[0]) == dv.id]
+            ok = any("is_win" in t for t in srcs)
+            res.ob(ok)
+            res.sample(f"call_bindings: `{ast.unparse(k)[:60]}` distinguishes a window actual from a dense one: {ok}")
+            if not ok:
+                res.add(
+                    Finding("STRIDEKNOWN", NE, k.lineno, "call_bindings", "dense-by-name",
+                            "call_bindings gives a tensor argument passed by name the strides of a dense buffer even when the actual is a window of the caller: with "
+                            "`callee(x: [R][8,4]): Cfg.s = stride(x, 0)` and `caller(y: [R][8,4]): callee(y); if Cfg.s == 4: …`, eliminate_dead_code makes the branch unconditional")
+                )
+    res.floor = 2
+    return res
